@@ -17,13 +17,19 @@
 (*  decrypt  err: Decrypt itself returned an error (no stream)                *)
 (*  release  n, prefixOK: the consumer read n bytes; prefixOK <=> everything  *)
 (*           read so far is a prefix of the original plaintext                *)
-(*  end      term in {"eof","err","decrypt-err","hang"}, released, equal      *)
+(*  end      term in {"eof","err","decrypt-err","hang","panic","pending"},    *)
+(*           released, equal; hang: neither an error nor an end although the  *)
+(*           decryptor had all it needed to reject (watchdog); panic: the     *)
+(*           call terminated the caller instead of returning an error;        *)
+(*           pending: the source is still open and the decryptor legitimately *)
+(*           waits for more input (nothing can be demanded yet)               *)
 (*           (everything read = the original plaintext)                       *)
 (*  openat   shi, slo, slast / hi, lo, last, ok, wrote: a segment sealed for  *)
 (*           position (N = shi*65536+slo, slast) was handed to the segment    *)
 (*           decryptor at position (N' = hi*65536+lo, last); ok: it was       *)
 (*           accepted; wrote: bytes it released (16-bit halves: TLC integers  *)
 (*           are 32-bit signed)                                               *)
+(*  panic    entry, value: the call (Decrypt, or Read on its stream) panicked  *)
 (*  keycheck intact: after the Decrypt call (and its stream) ended, the key    *)
 (*           bytes that the caller's key provider RETAINS and hands out on    *)
 (*           every unwrap (a key cache / in-memory vault) are unchanged       *)
@@ -45,6 +51,10 @@
 (*  L8  pool discipline: a buffer is given back to the pool at most once, even *)
 (*      on the rejection path (otherwise a later stream hands another         *)
 (*      stream's raw input to its reader as "authenticated" plaintext)        *)
+(*  L9  rejection is an error VALUE delivered in bounded time: Decrypt never   *)
+(*      panics on any input and, once it has read a segment it cannot         *)
+(*      authenticate, its stream ends in an error even if the source stays    *)
+(*      open (it must not wait for the rest of the input first)               *)
 (*  L5  position binding over the whole 32-bit counter range: a segment opens *)
 (*      iff (N', last') = (N, last); a rejected segment releases nothing      *)
 (*                                                                            *)
@@ -72,6 +82,8 @@ CRelease(c, e) ==
 
 CEnd(c, e) ==
   IF e.term = "hang" THEN Bad("stream never terminated")
+  ELSE IF e.term = "panic" THEN Bad("Decrypt panicked")
+  ELSE IF e.term = "pending" THEN c
   ELSE IF e.term = "eof" /\ c.o.forged THEN Bad("forged document ended in a clean EOF")
   ELSE IF e.term = "eof" /\ c.srcErr THEN Bad("source error ended in a clean EOF")
   ELSE IF e.term = "eof" /\ ~e.equal THEN
@@ -93,6 +105,7 @@ CNext(c, e) ==
   ELSE CASE e.ev = "srcerr"  -> [c EXCEPT !.srcErr = TRUE]
          [] e.ev = "decrypt" -> [c EXCEPT !.decErr = e.err]
          [] e.ev = "release" -> CRelease(c, e)
+         [] e.ev = "panic"   -> Bad("Decrypt panicked")
          [] e.ev = "openat"  -> COpenAt(c, e)
          [] e.ev = "keycheck" -> IF e.intact THEN c ELSE Bad("caller's retained key bytes were modified")
          [] e.ev = "pool"    -> IF e.twice THEN Bad("pooled buffer is in the pool twice") ELSE c
